@@ -367,3 +367,6 @@ def run_case(case):
     out.nontrivial = len(feats) >= 3 and len(ref.model_trace()) >= 4
     out.info = {"pieces": concrete, "executed": len(ref.model_trace())}
     return out
+
+
+RULE = RULE + " " + 'Later additions: in a quarter of the cases every third executed event issues start / a bounded run to the end while the run is in progress (refused; must change nothing); stop() from a TIME_CHANGED listener; bounds of the other numeric type; an earlier replication of another length.'
